@@ -17,11 +17,18 @@ Driver ops of property C09 (output backends, `LaTeXParser`, `Text.from_latex`).
                     "EncodeError" | "unmodelled-encoding" | "unrepresentable" (the file's encoding lacks a character)
              spec = per entry the plain text
 
+  fmt        {"backend", "encoding", "php_extra", "fn": one formatting method, "args"}: that method of that backend on its own
+             (`Backends.callMethod`); "fn": "longest_label" | "width" | "escape" for the helpers the backends call
+  parse      {"text", "level"}: `LaTeXParser(text).parse(level)` and the scanner afterwards (`LaTeXParser.parseLevel`)
+  render_as  {"tree", "name"}: `text.render_as(name)` (`Backends.renderAs`, plug-in lookup over the regenerated entry-point table)
+
+The encoding of `render` / `document` / `fmt` is looked up with `Latex.encodableInX` (three built-in ones + `Gen.extraEncodings`).
 Raw trees use the wire format of C08 (`Drv/C08.lean`).
 -/
 import PybtexModel.Drv.Json
 import PybtexModel.Drv.C08
 import PybtexModel.Spec.Backends
+import PybtexModel.Model.BackendsX
 open Lean
 namespace Pybtex.Drv.C09
 open Pybtex.RT Pybtex.Backends Pybtex.Spec
@@ -119,7 +126,7 @@ def render (j : Json) : Except String Json := do
   let observed ← optStr j "observed"
   let t := build raw
   let encName ← encodingOf j
-  let E := Latex.encodableIn encName
+  let E := Latex.encodableInX encName
   let out : Json :=
     if name == "latex" then
       match E with
@@ -212,7 +219,7 @@ def document (j : Json) : Except String Json := do
   let preamble ← getStr j "preamble"
   let encoding ← optStr j "encoding"
   let encName ← encodingOf j
-  let E := Latex.encodableIn encName
+  let E := Latex.encodableInX encName
   let php ← C08.optBool j "php_extra"
   let via ← optStr j "via"
   let o ← match name with
@@ -244,8 +251,111 @@ def document (j : Json) : Except String Json := do
                       | some (some (.ok s)), some E => s.all E
                       | _, _ => true))])])
 
+
+/-! ### function-level ops (extension): one method of one backend, `parse(level)`, `render_as` -/
+
+def outputOf (name : String) (encoding : Option Str) (php : Bool) : Except String Output :=
+  match name with
+  | "html" => pure (htmlOutput (match encoding with | some e => e | none => Gen.defaultEncoding))
+  | "markdown" => pure (markdownOutput php)
+  | "latex" => pure (latexOutput encode)
+  | "plaintext" => pure plaintextOutput
+  | _ => throw s!"unknown backend {name}"
+
+def methodOf (fn : String) (a : Json) : Except String Method := do
+  match fn with
+  | "format_str" => pure (.formatStr (← getStr a "s"))
+  | "format_tag" => pure (.formatTag (← getStr a "name") (← getStr a "text"))
+  | "format_href" => pure (.formatHref (← getStr a "url") (← getStr a "text") ((← C08.optBool a "external") == some true))
+  | "format_protected" => pure (.formatProtected (← getStr a "text"))
+  | "render_sequence" => pure (.renderSequence (← getStrList a "list"))
+  | "symbol" => pure (.symbol (← getStr a "name"))
+  | "write_entry" => pure (.writeEntry (← getStr a "key") (← getStr a "label") (← getStr a "text"))
+  | "write_prologue" => pure (.writePrologue (← getStrList a "labels") (← getStr a "preamble"))
+  | "write_epilogue" => pure .writeEpilogue
+  | _ => throw s!"unknown method {fn}"
+
+/-- `fmt`: {"backend", "encoding", "php_extra", "fn", "args"}; out = {"text"} | "KeyError" | "EncodeError" | "unmodelled-encoding";
+also "fn": "longest_label" {"labels"}, "width" {"s"}, "escape" {"s"} (helpers the backends call) -/
+def fmt (j : Json) : Except String Json := do
+  let fn ← (← j.getObjVal? "fn").getStr?
+  let a ← j.getObjVal? "args"
+  let txt (s : Str) : Json := obj [("text", strToJson s)]
+  match fn with
+  | "longest_label" =>
+    let ls ← getStrList a "labels"
+    pure (obj [("out", txt (longestLabel ls)), ("spec", obj [("widths", arr (ls.map fun l => Json.num (JsonNumber.fromInt (width l))))])])
+  | "width" =>
+    let s ← getStr a "s"
+    pure (obj [("out", obj [("int", Json.num (JsonNumber.fromInt (width s)))]), ("spec", obj [])])
+  | "escape" =>
+    let s ← getStr a "s"
+    pure (obj [("out", txt (escape s)), ("spec", obj [("html_chars", optStrJ (htmlChars (escape s)))])])
+  | _ =>
+  let name ← (← j.getObjVal? "backend").getStr?
+  let encoding ← optStr j "encoding"
+  let encName ← encodingOf j
+  let php ← C08.optBool j "php_extra"
+  let o ← outputOf name encoding (php == some true)
+  let m ← methodOf fn a
+  let exc (r : Except Backends.Err Str) : Json := match r with | .ok s => txt s | .error e => errJ e
+  let out : Json :=
+    if name == "latex" then
+      match Latex.encodableInX encName with
+      | none => Json.str "unmodelled-encoding"
+      | some E =>
+        let b := latexE (Latex.latexcodecEncodeE E)
+        match m with
+        | .formatStr s => exc (b.formatStr s)
+        | .formatHref u t e => exc (b.formatHref u (.ok t) e)
+        | m => match callMethod o m with | some s => txt s | none => Json.str "KeyError"
+    else match callMethod o m with | some s => txt s | none => Json.str "KeyError"
+  -- spec values for the oracle: the readers of the specification on the model's own arguments
+  let spec : List (String × Json) := match m with
+    | .formatStr s => [("md_escaped", strToJson (s.flatMap (Md.escChar Md.escapable))),
+                       ("encoded_balanced", Json.bool (balanced (encode s) == balanced s))]
+    | .formatTag _ t => [("text_balanced", Json.bool (balanced t)), ("text_html", optStrJ (htmlChars t))]
+    | .formatHref u t _ => [("text_balanced", Json.bool (balanced t && balanced u)), ("text_html", optStrJ (htmlChars t))]
+    | .formatProtected t => [("text_balanced", Json.bool (balanced t)), ("text_html", optStrJ (htmlChars t))]
+    | .writeEntry _ l t => [("text_balanced", Json.bool (balanced t && balanced l)), ("text_html", optStrJ (htmlChars t))]
+    | _ => []
+  pure (obj [("out", out), ("spec", obj spec)])
+
+/-- `parse`: {"text", "level"}; out = {"tree", "pos", "lineno"} | {"error": [lineno, pos]};
+spec = where the first closing brace that closes nothing sits, the depth sequence of the text before it -/
+def parse (j : Json) : Except String Json := do
+  let text ← getStr j "text"
+  let level ← getNat j "level"
+  let out : Json := match LaTeXParser.parseLevel text level with
+    | .error (.unbalanced ln pos) => obj [("error", arr [nat ln, nat pos])]
+    | .ok (t, st) => obj [("tree", C08.treeJ t), ("pos", nat st.pos), ("lineno", nat st.lineno)]
+  let sp := Tex.splitAtClose 0 text
+  pure (obj [("out", out),
+    ("spec", obj [("close_at", optJ (fun p => nat p.1.length) sp),
+                  ("body_depths", match sp with | some p => optPairsJ (Tex.depths p.1) | none => Json.null),
+                  ("depths", optPairsJ (Tex.depths text)),
+                  ("unbalanced_at", optJ nat (Tex.unbalancedAt text)),
+                  ("last_brace_end", nat (Tex.lastBraceEnd text))])])
+
+/-- `render_as`: {"tree", "name"}; out = {"text"} | "KeyError" | "PluginNotFound"; spec = the backend found -/
+def renderAsOp (j : Json) : Except String Json := do
+  let raw ← C08.tree (← j.getObjVal? "tree")
+  let name ← getStr j "name"
+  let out : Json := match renderAs encode name (build raw) with
+    | none => Json.str "PluginNotFound"
+    | some none => Json.str "KeyError"
+    | some (some s) => obj [("text", strToJson s)]
+  let idJ : Json := match findBackend name with
+    | none => Json.null
+    | some .html => Json.str "html"
+    | some .markdown => Json.str "markdown"
+    | some .latex => Json.str "latex"
+    | some .plaintext => Json.str "plaintext"
+  pure (obj [("out", out), ("spec", obj [("backend", idJ)])])
+
 /-- driver ops of this property: (op name, handler) -/
 def handlers : List (String × (Json → Except String Json)) :=
-  [("render", render), ("fromlatex", fromlatex), ("document", document)]
+  [("render", render), ("fromlatex", fromlatex), ("document", document), ("fmt", fmt), ("parse", parse),
+   ("render_as", renderAsOp)]
 
 end Pybtex.Drv.C09
